@@ -433,6 +433,9 @@ class WorldScenario:
         pass
 
     def nontrivial(self, w):
+        names = self.profile.get("nontrivial_probes")
+        if names:
+            return any(w.probes.get(n, 0) > 0 for n in names)
         return w.n_invocations > 0
 
     def result(self):
